@@ -91,6 +91,16 @@ def cases(seed, tier):
                              "sessions": [{"id": "x0", "station": "s0", "arrival": 0, "departure": k_ + 3, "requested": 1e3, "est_dep": k_ + 3,
                                            "battery": {"t": "ideal", "cap": 10 + k_ * step + gap_, "init": 10, "maxp": 50}}],
                              "scheduler": {"kind": "scripted", "mr": 1, "seed": 3, "t0": 0, "mode": "full"}}, "meddle": False, "nearly_full": True})
+    # corpus: energies near the top of the float range (every quantity of the ledger representable): a two-stage or ideal pack of
+    # 1e305 kWh on a 1e302 kW charger, periods of weeks, an unlimited station under the uncontrolled baseline
+    for bt_ in ({"t": "l2", "cap": 1e305, "init": 0, "maxp": 1e302, "noise": 0, "tsoc": 0.8, "calc": "continuous"},
+                {"t": "ideal", "cap": 1e305, "init": 0, "maxp": 1e302},
+                {"t": "l2", "cap": 4e304, "init": 1e304, "maxp": 3e301, "noise": 0, "tsoc": 0.5, "calc": "stepwise"}):
+        for per_ in (60000, 10080):
+            net_ = {"stations": [{"id": "s0", "evse": {"t": "EVSE", "max": float("inf"), "min": 0}, "voltage": 240, "phase": 0}], "constraints": [], "tol": None}
+            out.append({"desc": {"period": per_, "network": net_, "recompute": [], "np_seed": 1,
+                                 "sessions": [{"id": "x0", "station": "s0", "arrival": 1, "departure": 4, "requested": 1e306, "est_dep": 4, "battery": dict(bt_)}],
+                                 "scheduler": {"kind": "uncontrolled"}}, "meddle": False, "huge": True})
     from props.c19 import gen_history
     for i in range(n // 5):
         out.append({"desc": gen_history(rng), "stochastic": True, "rseed": rng.randrange(1 << 30)})
